@@ -133,7 +133,8 @@ C05_ReqNoOrphanScope == IsReq /\ Ev.panic = "" /\ Ev.fpanic = "" /\ Levels(RPre)
 
 \* ---- C17: refused input has no effect
 \* (not judged for applications with a pre-VM check: by design it runs, in its scratch scope, before the input is validated)
-C17_Refused == IsReq /\ Refused /\ ~Ev.cfg.first =>
+\* (long-lived and per-request-persister operation; requests through a KEPT persister are judged by their transcripts, C17_AsIfNeverSent)
+C17_Refused == IsReq /\ Refused /\ ~Ev.cfg.first /\ Ev.mode \in {"L", "P"} =>
                  /\ Ev.err /\ Ev.niter = 0 /\ Ev.ext = <<>> /\ Ev.panic = ""
                  /\ PersProj(RPost) = PersProj(RPre)
                  /\ (RPost.code = RPre.code \/ (RPre.code = <<>> /\ RPost.code = RootCode))
